@@ -347,9 +347,22 @@ class Scheduler:
                     stack.pop()
             return local
 
+        harness = os.path.dirname(os.path.abspath(__file__))
+
         def glob(frame, event, arg):
-            if frame.f_code.co_filename == self.target:
+            fn = frame.f_code.co_filename
+            if fn == self.target:
                 return local
+            # Python-level library code called *from* the code under test (a dict subclass's
+            # setdefault, typing.cast ...) is part of the same critical sections: its lines are
+            # decision points too.  Frames of the harness and of threading itself are not.
+            if fn.startswith(harness) or fn.endswith("threading.py") or fn.startswith("<"):
+                return None
+            back, depth = frame.f_back, 0
+            while back is not None and depth < 6:
+                if back.f_code.co_filename == self.target:
+                    return local
+                back, depth = back.f_back, depth + 1
             return None
 
         return glob
